@@ -271,6 +271,36 @@ def mask_case(N):
                      "piecewise-linear interpolation with wrap-around")
 
 
+def mask_given_case():
+    """the mask handed to the constructor (a 2-D array, as documented, or nested lists) is the mask of the station: the real
+    TopocentricFrame.__init__ followed by get_mask at an azimuth of the table"""
+    ins = [("a0", "real"), ("e0", "real"), ("e1", "real")]
+
+    def pre(v):
+        return [v["a0"] > 0, v["a0"] < 2 * PI]
+
+    def run(env, v):
+        st = env.mod("beyond.frames.stations")
+        two_pi = 2 * env.pi
+        az, el = [v["a0"], two_pi], [v["e0"], v["e1"]]
+        if env.symbolic:
+            arr, lst = env.np.array([az, el]), [list(az), list(el)]
+            q = v["a0"]
+        else:
+            arr, lst = np.array([az, el], dtype=float), [[float(x) for x in az], [float(x) for x in el]]
+            q = float(v["a0"])
+        n = next(_counter)
+        as_array = st.TopocentricFrame(f"vfm{n}a", None, None, mask=arr)
+        as_lists = st.TopocentricFrame(f"vfm{n}l", None, None, mask=lst)
+        return {"array": as_array.get_mask(q), "lists": as_lists.get_mask(q)}
+
+    def ref(env, v, out):
+        return {"array": v["e0"], "lists": v["e0"]}
+    return Case("mask/given", ins, run, ref, pre=pre, timeout=60, maxpaths=100, tol=1e-9, abs_tol=1e-9,
+                desc="a mask given to the constructor as a 2-D array (the documented type) or as nested lists is the station's mask: "
+                     "get_mask at a tabulated azimuth returns the tabulated elevation")
+
+
 def measures_case(n, closed):
     """Range/Azimut/Elevation/Doppler.from_orbit on a signal path with n nodes (closed: last node = first station, open: a
     second station): each measure asks the orbit for the spherical form in the *first* node's frame, Range is r times the
@@ -315,6 +345,7 @@ def all_cases(tier):
             cs.append(measures_case(n, True))
     for n in range(1, bounds(tier)["mask_entries"] + 1):
         cs.append(mask_case(n))
+    cs.append(mask_given_case())
     return cs
 
 
